@@ -40,6 +40,7 @@ Inductive gen :=
 | GYieldV (v : val) (k : outcome -> gen)
 | GLog (t : obs) (g : gen)
 | GCall (inner : gen) (k : outcome -> gen)    (* yields the Deferred of a nested inlineCallbacks call *)
+| GResume (inner : gen) (k : outcome -> gen)   (* a suspended call stack: [inner] is the rest of the callee, [k] its caller *)
 | GCancelNow (lvl : nat) (g : gen).          (* while RUNNING (not suspended), code called by the function cancels the
                                                 Deferred returned by the call [lvl] levels up its stack (0 = its own) *)
 
@@ -99,6 +100,9 @@ Record world := mkw {
   seen : list obs;         (* ghost: the function's own log and the canceller calls, newest first *)
   held : list nat;         (* Deferreds that were fired while explicitly pause()d and have not been unpaused: they
                               have a raw result but deliver nothing yet; cancel() does not reach them *)
+  settling : option nat;   (* (coroutines, during cancel()) the Deferred whose canceller has just fired it: the driver's
+                              callback on it returns, and it loses its result, as soon as the call that was suspended
+                              on it finishes; the callers further up are resumed only after that *)
   stale : bool             (* ghost (coroutines): some await has read a Deferred whose result the driver had already
                               taken, i.e. has seen None instead of the Deferred's outcome *)
 }.
@@ -135,15 +139,19 @@ Section Drive.
   Definition current (w : world) (d : nat) : outcome :=
     if mem d (consumed w) then Val VNone else eff assign canc (cancelled w) d.
   Definition consume (d : nat) (w : world) : world :=
-    mkw (fired w) (cancelled w) (d :: consumed w) (seen w) (held w) (stale w).
+    mkw (fired w) (cancelled w) (d :: consumed w) (seen w) (held w) (settling w) (stale w).
   Definition say (t : obs) (w : world) : world :=
-    mkw (fired w) (cancelled w) (consumed w) (t :: seen w) (held w) (stale w).
+    mkw (fired w) (cancelled w) (consumed w) (t :: seen w) (held w) (settling w) (stale w).
   Definition note_stale (d : nat) (w : world) : world :=
-    mkw (fired w) (cancelled w) (consumed w) (seen w) (held w) (stale w || mem d (consumed w)).
+    mkw (fired w) (cancelled w) (consumed w) (seen w) (held w) (settling w) (stale w || mem d (consumed w)).
   (** reading an already fired Deferred at a [yield d] / [await d] *)
   Definition after_read (d : nat) (w : world) : world := if coro then note_stale d w else consume d w.
   (** the Deferred the function was suspended on has fired and the cascade it started is over *)
-  Definition settle (d : nat) (p : status * world) : status * world := (fst p, consume d (snd p)).
+  Definition unsettle (w : world) : world := mkw (fired w) (cancelled w) (consumed w) (seen w) (held w) None (stale w).
+  Definition settle (d : nat) (p : status * world) : status * world := (fst p, unsettle (consume d (snd p))).
+  (** the call that was suspended on the cancelled Deferred has finished: the driver's callback returns *)
+  Definition boundary (w : world) : world :=
+    match settling w with Some d => unsettle (consume d w) | None => w end.
 
   Fixpoint drive (g : gen) (w : world) : status * world :=
     match g with
@@ -170,13 +178,25 @@ Section Drive.
         let '(st, w1) := drive inner w in
         match st with
         | Finished r => drive (k r) w1
-        | Suspended d k' => (Suspended d (fun o => GCall (k' o) k), w1)
+        | Suspended d k' => (Suspended d (fun o => GResume (k' o) k), w1)
+        end
+    | GResume inner k =>
+        (* resuming a suspended stack: the callee goes on; when it finishes its caller is resumed — in the same
+           synchronous cascade, except during cancel(): there the callee's outcome reaches the caller only after the
+           cancelled Deferred's callbacks have returned ([boundary]) *)
+        let '(st, w1) := drive inner w in
+        match st with
+        | Finished r => drive (k r) (boundary w1)
+        | Suspended d k' => (Suspended d (fun o => GResume (k' o) k), w1)
         end
     end.
 
   (** the function, suspended on d, is resumed with d's outcome *)
-  Definition resume (d : nat) (k : outcome -> gen) (w1 : world) : status * world :=
-    if coro then settle d (drive (k (current w1 d)) w1)
+  Definition mark_settling (b : bool) (d : nat) (w : world) : world :=
+    mkw (fired w) (cancelled w) (consumed w) (seen w) (held w) (if b then Some d else settling w) (stale w).
+  (** [via_cancel]: d was fired by its canceller from inside cancel() of the returned Deferred *)
+  Definition resume (via_cancel : bool) (d : nat) (k : outcome -> gen) (w1 : world) : status * world :=
+    if coro then settle d (drive (k (current w1 d)) (mark_settling via_cancel d w1))
     else drive (k (current w1 d)) (consume d w1).
 
   (** Deferred d fires (later firings of the same Deferred are ignored by the harness) *)
@@ -184,9 +204,9 @@ Section Drive.
     let '(st, w) := p in
     if mem d (fired w) then (st, w)
     else
-      let w1 := mkw (d :: fired w) (cancelled w) (consumed w) (seen w) (held w) (stale w) in
+      let w1 := mkw (d :: fired w) (cancelled w) (consumed w) (seen w) (held w) (settling w) (stale w) in
       match st with
-      | Suspended d' k => if Nat.eqb d d' then resume d k w1 else (st, w1)
+      | Suspended d' k => if Nat.eqb d d' then resume false d k w1 else (st, w1)
       | Finished _ => (st, w1)
       end.
 
@@ -205,20 +225,20 @@ Section Drive.
     | Suspended d k =>
         if mem d (held w) then (st, w)     (* fired while paused: [called] is set, Deferred.cancel() does nothing *)
         else
-        let w1 := mkw (d :: fired w) (d :: cancelled w) (consumed w) (Cancelled d :: seen w) (held w) (stale w) in
-        resume d k w1
+        let w1 := mkw (d :: fired w) (d :: cancelled w) (consumed w) (Cancelled d :: seen w) (held w) (settling w) (stale w) in
+        resume true d k w1
     end.
 
   Definition hold (d : nat) (p : status * world) : status * world :=
     let '(st, w) := p in
     if mem d (fired w) then (st, w)
-    else (st, mkw (fired w) (cancelled w) (consumed w) (seen w) (d :: held w) (stale w)).
+    else (st, mkw (fired w) (cancelled w) (consumed w) (seen w) (d :: held w) (settling w) (stale w)).
 
   Definition step (p : status * world) (o : sop) : status * world :=
     match o with SFire d => fire d p | SCancel => cancel p | SHold d => hold d p end.
 
   (** [pre]: fired (and delivered) before the call; [hold0]: fired while paused before the call *)
-  Definition start (pre hold0 : list nat) (g : gen) : status * world := drive g (mkw pre [] [] [] hold0 false).
+  Definition start (pre hold0 : list nat) (g : gen) : status * world := drive g (mkw pre [] [] [] hold0 None false).
   Definition run (pre hold0 : list nat) (g : gen) (sched : list sop) : status * world :=
     fold_left step sched (start pre hold0 g).
 End Drive.
@@ -236,7 +256,7 @@ Fixpoint sync (out : nat -> outcome) (g : gen) (cons : list nat) (log : list obs
   | GCancelNow lvl g' => sync out g' cons (push (CancelNow lvl) log)
   | GYieldV v k => sync out (k (Val v)) cons log
   | GYieldD d k => sync out (k (if mem d cons then Val VNone else out d)) (d :: cons) log
-  | GCall inner k => let '(r, cons1, log1) := sync out inner cons log in sync out (k r) cons1 log1
+  | GCall inner k | GResume inner k => let '(r, cons1, log1) := sync out inner cons log in sync out (k r) cons1 log1
   end.
 
 (** ... for a coroutine: an await of a Deferred that has its outcome returns / raises it every time *)
@@ -248,7 +268,7 @@ Fixpoint sync_nc (out : nat -> outcome) (g : gen) (log : list obs) : outcome * l
   | GCancelNow lvl g' => sync_nc out g' (push (CancelNow lvl) log)
   | GYieldV v k => sync_nc out (k (Val v)) log
   | GYieldD d k => sync_nc out (k (out d)) log
-  | GCall inner k => let '(r, log1) := sync_nc out inner log in sync_nc out (k r) log1
+  | GCall inner k | GResume inner k => let '(r, log1) := sync_nc out inner log in sync_nc out (k r) log1
   end.
 
 (** the function's own observations (canceller calls are the environment's, not the function's) *)
